@@ -624,6 +624,24 @@ fn reser<'a, T: serde::Deserialize<'a> + serde::Serialize>(data: &'a [u8]) -> St
     }
 }
 
+/// value -> bytes -> value
+fn rtv<T: FromVal + serde::Serialize + for<'a> serde::Deserialize<'a> + ToVal>(v: &Val) -> String {
+    let x = match T::from_val(v) {
+        Ok(x) => x,
+        Err(e) => return format!("unbuildable {e}"),
+    };
+    let mut buf = vec![0u8; 16384];
+    let bytes = match ctap_types::serde::cbor_serialize(&x, &mut buf) {
+        Ok(s) => s.to_vec(),
+        Err(e) => return format!("err {}", err_name(e)),
+    };
+    let out = match ctap_types::serde::de::take_from_bytes::<T>(&bytes) {
+        Ok((y, rest)) => format!("ok {} rest={}", y.to_val().show(), rest.len()),
+        Err(e) => format!("err {}", err_name(e)),
+    };
+    out
+}
+
 fn encty<T: FromVal + serde::Serialize>(v: &Val) -> String {
     match T::from_val(v) {
         Ok(x) => ser_to_hex(&x),
@@ -885,6 +903,10 @@ fn run(op: &str, a: &[&str]) -> String {
         ("decty", 2) => decty_only(a[0], &unhex(a[1])),
         ("encty", 2) => match Val::parse(a[1]) {
             Ok(v) => with_type!(a[0], encty, &v),
+            Err(e) => format!("unparsable {e}"),
+        },
+        ("rtv", 2) => match Val::parse(a[1]) {
+            Ok(v) => with_type!(a[0], rtv, &v),
             Err(e) => format!("unparsable {e}"),
         },
         ("reser", 2) => {
